@@ -352,6 +352,13 @@ func isEvmType(t int32) bool { return t == 200 || t == 188 }
 // balances / nonces right after that transaction.
 func observeOpaque(sc *Scenario, wl []common.Address) {
 	observedBody = map[string]string{}
+	// a block on which the real Less panics (equal hashes) is answered PANIC by the guarded block op
+	// and `unmodelled` by the driver; nothing to observe then
+	defer func() {
+		if e := recover(); e != nil {
+			observedBody = map[string]string{}
+		}
+	}()
 	has := false
 	for _, x := range sc.Txs {
 		if isEvmType(x.Type) {
